@@ -356,13 +356,15 @@ def finish_cli_case(rng, prog, allow_stdin=True, want_outputs=None, force_lst=Fa
     for o in outs:
         if o["path"] == "-":
             continue
+        if o["path"] in files:
+            continue        # e.g. make_raw's default path for a suffix-less source IS the source file
         if os.path.dirname(o["path"]) in dirs and rng.random() < 0.4:
-            files[o["path"]] = b"STALE-" + o["path"].encode()[-20:]
+            files[o["path"]] = (b"STALE-" + o["path"].encode()[-20:]) * rng.choice([1, 1, 40, 3000, 30000])
             if rng.random() < 0.06:
                 readonly.add(o["path"])
     for c in listing:
-        if c and os.path.dirname(c) in dirs and rng.random() < 0.3:
-            files[c] = b"STALE LISTING\n"
+        if c and c not in files and os.path.dirname(c) in dirs and rng.random() < 0.3:
+            files[c] = b"STALE LISTING\n" * rng.choice([1, 50, 5000])
     files[CWD + "/decoy.bin"] = b"DECOY"
     op = {"kind": "cli", "argv": argv, "files": files, "dirs": sorted(dirs), "cwd": CWD,
           "readonly": sorted(readonly), "stdin": stdin_text, "faults": []}
